@@ -229,7 +229,9 @@ func c12Op(g *gen.G, typ byte) drv.Op {
 			return userprops()
 		}
 	case ref.Subscribe:
-		switch t.Pick(3, 3, 3, 2, 2) {
+		switch t.Pick(3, 3, 3, 2, 2, 1) {
+		case 5:
+			return drv.Op{Kind: "dupfilter", N: uint32(t.Int(8))}
 		case 4:
 			return drv.Op{Kind: "editfilter", N: uint32(t.Int(8)), B: g.Str(g.Len1()), ID: byte(t.Int(3)) | byte(t.Int(3))<<4}
 		case 0:
@@ -398,6 +400,19 @@ func runC12(c *sim.Ctx) *sim.Violation {
 	}
 	sigSeq := name
 	for i, o := range ops {
+		if o.Kind == "editfilter" && len(model.Filters) > 0 && t.Bool(1, 2) {
+			// the new name has exactly the length of the one it replaces (the shape
+			// an in-place rewrite would be tempted by), different content
+			old := model.Filters[int(o.N)%len(model.Filters)].Name
+			nb := make([]byte, len(old))
+			for k := range nb {
+				nb[k] = "zyxwvutsrq"[(k+int(o.ID))%10]
+			}
+			if len(nb) > 0 {
+				o.B = nb
+				ops[i] = o
+			}
+		}
 		var aerr error
 		if pi := sim.Guard(func() { aerr = drv.Apply(p, o) }); pi != nil {
 			return sim.V("C12/"+name+"/"+o.Kind+"/panic:"+pi.Site, "step %d %s panicked: %s\nhistory: %v", i, o, pi.Value, ops[:i+1])
